@@ -81,6 +81,19 @@ func main() {
 				fmt.Println(indent(o.Model, 12))
 			}
 		}
+	case "modset":
+		P, V := loadAll()
+		for _, n := range os.Args[2:] {
+			fn := P.Funcs[n]
+			if fn == nil {
+				fmt.Println("no such function", n)
+				continue
+			}
+			fmt.Println(n)
+			for _, k := range sortedKeys(V.modSet(fn)) {
+				fmt.Println("   ", k)
+			}
+		}
 	case "check":
 		os.Exit(runCheck(os.Args[2:]))
 	default:
